@@ -7,7 +7,7 @@ import re
 import codec
 import codeccheck
 
-LEAN_MODULES = ["PyAirtouch.Props.C054"]
+LEAN_MODULES = ["PyAirtouch.Props.C054", "PyAirtouch.Props.C055"]
 LEVEL = "proof"
 STATUS_KEYS = [(4, "2B"), (4, "2D"), (4, "FF11"), (4, "FF12"), (4, "FF10"), (4, "FF30"),
                (5, "C021"), (5, "C023"), (5, "FF11"), (5, "FF13"), (5, "FF10"), (5, "FF30")]
